@@ -10,6 +10,7 @@ import (
 	"encoding/json"
 	"fmt"
 	"os"
+	"reflect"
 	"strings"
 	"sync"
 )
@@ -168,7 +169,11 @@ func Observe(label string, v ...any) {
 		case byte:
 			parts = append(parts, fmt.Sprint(uint64(y)))
 		default:
-			parts = append(parts, fmt.Sprint(y))
+			if rv := reflect.ValueOf(x); rv.IsValid() && rv.Kind() == reflect.Slice && rv.Len() == 0 {
+				parts = append(parts, "\"\"")
+			} else {
+				parts = append(parts, fmt.Sprint(y))
+			}
 		}
 	}
 	mu.Lock()
